@@ -208,6 +208,17 @@ def memo_getters(K):
                                 if isinstance(e, ast.Attribute) and isinstance(e.value, ast.Name) and e.value.id == sn and e.attr in flds and not _is_fetch(st.value):
                                     if (name, e.attr) not in [(a, b) for a, b, _ in out]:
                                         out.append((name, e.attr, g))
+                    # the fill handed to a method of the class: `if self.F is None: self.build_default()` with build_default storing self.F
+                    elif isinstance(st, ast.Call) and isinstance(st.func, ast.Attribute) and isinstance(st.func.value, ast.Name) and st.func.value.id == sn:
+                        m = K.lookup(st.func.attr)
+                        if m and m[1] == "method" and m[2].self_name:
+                            msn = m[2].self_name
+                            for x in ast.walk(m[2].node):
+                                if isinstance(x, (ast.Assign, ast.AnnAssign)) and x.value is not None and not _is_fetch(x.value):
+                                    for t in (x.targets if isinstance(x, ast.Assign) else [x.target]):
+                                        if isinstance(t, ast.Attribute) and isinstance(t.value, ast.Name) and t.value.id == msn and t.attr in flds:
+                                            if (name, t.attr) not in [(a, b) for a, b, _ in out]:
+                                                out.append((name, t.attr, g))
     return out
 
 
